@@ -5,12 +5,12 @@
 EXTENDS Cleaner, TLC, Json
 
 CONSTANTS MaxRecs, MaxBatch, MaxOps, MaxEpoch, CapSet, KeySet, AgeSet, MsgsSet, BytesSet,
-          CompactSet, LagSet, BigSet, MaxCleans, MaxTicks, UseWindow, UseReopen, UseEpochs, UseReaders
+          CompactSet, LagSet, BigSet, MaxCleans, MaxTicks, UseWindow, UseReopen, UseEpochs, UseReaders, OccSet
 VARIABLES last, nRecs, nOps, nCleans, nTicks
 mcvars == <<cvars, last, nRecs, nOps, nCleans, nTicks>>
 
-Rec(i, k, big, e, t) == [ep |-> e, ts |-> t, key |-> k, val |-> i, hdr |-> "h",
-                         sz |-> IF big THEN 2 ELSE 1, fp |-> i, exp |-> -1]
+Rec(i, k, big, e, t, x) == [ep |-> e, ts |-> t, key |-> k, val |-> i, hdr |-> "h",
+                            sz |-> IF big THEN 2 ELSE 1, fp |-> i, exp |-> x]
 
 CurEpoch == IF log = <<>> THEN LatestEpoch(epochs)
             ELSE IF Last(log).ep > LatestEpoch(epochs) THEN Last(log).ep ELSE LatestEpoch(epochs)
@@ -18,7 +18,7 @@ CurEpoch == IF log = <<>> THEN LatestEpoch(epochs)
 Step(a) == /\ nOps < MaxOps /\ nOps' = nOps + 1 /\ last' = a
 
 MCInit ==
-  /\ cfg \in [maxBytes : CapSet, occ : {FALSE}]
+  /\ cfg \in [maxBytes : CapSet, occ : OccSet]
   /\ log = <<>> /\ segs = <<[base |-> 0, bytes |-> 0]>>
   /\ hw = -1 /\ epochs = <<>> /\ ro = FALSE
   /\ rd = [r \in Readers |-> NoReader]
@@ -30,10 +30,16 @@ MCInit ==
 
 \* a batch of n records with keys ks[1..n]; the clock advances by one per record,
 \* timestamps = clock - lag (lag > 0: non-monotone write times)
-MCAppend(n, ks, big, de, lag) ==
+\* With optimistic concurrency control (single-message batches) the expected offset
+\* may be wrong (miss): the append is refused AFTER the split check, which can leave
+\* an empty active segment behind - a segment with 0 messages for the cleaners.
+MCAppend(n, ks, big, de, lag, miss) ==
   /\ nRecs + n <= MaxRecs
   /\ CurEpoch + de <= MaxEpoch
-  /\ LET recs == [i \in 1..n |-> Rec(nRecs + i, ks[i], big /\ i = 1, CurEpoch + de, now + i - lag)] IN
+  /\ cfg.occ => n = 1
+  /\ miss => cfg.occ
+  /\ LET x    == IF miss THEN NextOff + 1 ELSE -1
+         recs == [i \in 1..n |-> Rec(nRecs + i, ks[i], big /\ i = 1, CurEpoch + de, now + i - lag, x)] IN
      /\ CAppend(recs)
      /\ Step([a |-> "Append", recs |-> recs])
   /\ nRecs' = nRecs + n
@@ -81,9 +87,9 @@ MCDrain(r) ==
 Room == pend.on => nOps < MaxOps - 1
 
 MCNext ==
-  \/ Room /\ \E n \in 1..MaxBatch, ks \in [1..MaxBatch -> KeySet], big \in BigSet, de \in 0..1, lag \in LagSet :
+  \/ Room /\ \E n \in 1..MaxBatch, ks \in [1..MaxBatch -> KeySet], big \in BigSet, de \in 0..1, lag \in LagSet, miss \in BOOLEAN :
         /\ \A i \in n + 1..MaxBatch : ks[i] = ks[1]        \* unused positions do not multiply choices
-        /\ MCAppend(n, ks, big, de, lag)
+        /\ MCAppend(n, ks, big, de, lag, miss)
   \/ Room /\ \E h \in (hw + 1)..Newest : MCSetHW(h)
   \/ Room /\ MCNewLeaderEpoch
   \/ Room /\ \E d \in 1..2 : MCTick(d)
